@@ -40,7 +40,7 @@ func genIndexTable(t *rapid.T) (kit.Schema, indexCfg, map[string][]model.ClientI
 		scalars = append(scalars, c.Name)
 		plain = append(plain, c.Name)
 	}
-	tb.Cols = append(tb.Cols, kit.Col{Name: "opt", Key: kit.Base{T: rapid.SampledFrom([]kit.AT{kit.TStr, kit.TInt}).Draw(t, "otype")}, Min: 0, Max: 1})
+	tb.Cols = append(tb.Cols, kit.Col{Name: "opt", Key: kit.Base{T: rapid.SampledFrom([]kit.AT{kit.TStr, kit.TInt, kit.TReal, kit.TBool, kit.TUUID}).Draw(t, "otype")}, Min: 0, Max: 1})
 	tb.Cols = append(tb.Cols, kit.Col{Name: "opt2", Key: kit.Base{T: kit.TStr}, Min: 0, Max: 1})
 	tb.Cols = append(tb.Cols, kit.Col{Name: "m", Key: kit.Base{T: kit.TStr}, Value: &kit.Base{T: kit.TStr}, Min: 0, Max: -1})
 	tb.Cols = append(tb.Cols, kit.Col{Name: "set", Key: kit.Base{T: kit.TStr}, Min: 0, Max: -1})
